@@ -216,6 +216,9 @@ def family(tier, rng):
     # hold the override outputs of a key that is already listed as an override output)
     OVC = [(["lsft", "x"], ["y"]), (["lctl", "y"], ["z"])]
     add("ovr_chain_fork", "abc", [{"a": FORK(X, Y, ["lctl"]), "b": K("lsft"), "c": K("lctl")}], qmax=2, overrides=OVC)
+    # unmod / unshift on a layer-while-held layer whose base-layer entry differs: the "is it down" test of the held-layer
+    # walk must know unmodded_keys / unshifted_keys too (handle_repeat has three copies of that test)
+    add("unmod_held_layer", "abc", [{"a": Z, "b": LWH(1), "c": W}, {"a": UNMOD("x"), "b": TR, "c": UNSHIFT("y")}], qmax=2)
     # the reserved no-op keys (first and last of the range) as outputs: held in the layout, never down at the OS
     add("nop_keys", "ab", [{"a": K("nop9"), "b": MULTI(K("nop0"), X)}], qmax=2)
     # override-release-on-activation: the override lasts one tick and its input keys are released / pressed again around it
@@ -226,6 +229,9 @@ def family(tier, rng):
     add("v2_shared_key", "abc", [{"a": X, "b": Y, "c": Z}], qmax=2, v2_depth=11 if tier == "quick" else 16,
         defcfg={"concurrent-tap-hold": "yes"}, chordsv2=V2A)
     if tier == "thorough":
+        # the same on a layer reached with layer-switch (default-layer path), and a held layer on top of a switched-to one
+        add("unmod_lsw_layer", "abc", [{"a": Z, "b": LSW(1), "c": W}, {"a": UNMOD("x"), "b": TR, "c": UNSHIFT("y")}], qmax=2)
+        add("unmod_lwh_over_lsw", "abc", [{"a": Z, "b": LWH(1), "c": LSW(2)}, {"a": UNMOD("x")}, {"a": UNSHIFT("y")}], qmax=2)
         add("v2_shared_key_rev", "abc", [{"a": X, "b": Y, "c": Z}], qmax=2, v2_depth=16,
             defcfg={"concurrent-tap-hold": "yes"}, chordsv2=V2A[::-1])
         add("v2_two_layers", "abcd", [{"a": X, "b": Y, "c": Z, "d": LSW(1)}, {"a": W}], qmax=2, v2_depth=14,
@@ -266,6 +272,8 @@ def family(tier, rng):
                 kw = {"os_bound": 2} if on == "os" else {}
                 add("n_%s_%s_l0" % (on, ln), "abc", [{"a": act, "b": K("lsft"), "c": LWH(1)}, {"a": W, "b": TR, "c": TR}], qmax=2, track_hist=False, **kw)
                 add("n_%s_%s_l1" % (on, ln), "abc", [{"a": W, "b": K("lsft"), "c": LWH(1)}, {"a": act, "b": TR, "c": TR}], qmax=2, track_hist=False, **kw)
+                if ln in ("key", "chord", "unmod") and on != "td":      # (the tap-dance graphs are the largest; td is on l0 / l1)
+                    add("n_%s_%s_sw" % (on, ln), "abc", [{"a": W, "b": K("lsft"), "c": LSW(1)}, {"a": act, "b": TR, "c": TR}], qmax=2, track_hist=False, **kw)
     return F
 
 
@@ -373,7 +381,7 @@ def run(tier, seed):
             inst["view"] = "<<CvCanonK([K EXCEPT !.out = <<>>]), phys, mon>>"
             inst["extra_guard"] = "/\\ Len(K.L.chv2.q) + Len(K.L.queue) < QMax"
         inst["extra_tags"] = ["KRDIFF"]      # mc.check_instance removes the TLC output after extracting the probes
-        r = mc.check_instance(inst, wd, workers=6, timeout=1500)
+        r = mc.check_instance(inst, wd, workers=4, timeout=1500)
         res.add_instance(r)
         nd = r.get("n_krdiff", 0)
         if nd:
@@ -413,7 +421,7 @@ def run(tier, seed):
                     "view": VIEW, "invariants": []}
             inst.update(io)
             inst["extra_defs"] = inst.pop("bound_defs", "")
-            r = mc.check_instance(inst, wd, workers=6, timeout=1500, replay=False)
+            r = mc.check_instance(inst, wd, workers=4, timeout=1500, replay=False)
             rejected[bug] = r["n_monerr"]
             if not r["n_monerr"]:
                 raise ToolError("model mutant %s of KeyRepeat.tla is not rejected by P_C14 on %s" % (bug, iname))
